@@ -41,6 +41,7 @@ impl<T: RefCnt> HybridProtection<T> {
     #[inline]
     fn attempt(node: &LocalNode, storage: &AtomicPtr<T::Base>) -> Option<Self> {
         // Relaxed is good enough here, see the Acquire below
+        verif_step!(ATTEMPT_LOAD);
         let ptr = storage.load(Relaxed);
         // Try to get a debt slot. If not possible, fail.
         let debt = node.new_fast(ptr as usize)?;
@@ -48,17 +49,21 @@ impl<T: RefCnt> HybridProtection<T> {
         // Acquire to get the data.
         //
         // SeqCst to make sure the storage vs. the debt are well ordered.
+        verif_step!(ATTEMPT_CONFIRM);
         let confirm = storage.load(SeqCst);
         if ptr == confirm {
             // Successfully got a debt
+            verif_step!(ATTEMPT_CONFIRMED);
             Some(unsafe { Self::new(ptr, Some(debt)) })
         } else if debt.pay::<T>(ptr) {
             // It changed in the meantime, we return the debt (that is on the outdated pointer,
             // possibly destroyed) and fail.
+            verif_step!(ATTEMPT_RETURNED);
             None
         } else {
             // It changed in the meantime, but the debt for the previous pointer was already paid
             // for by someone else, so we are fine using it.
+            verif_step!(ATTEMPT_PREPAID);
             Some(unsafe { Self::new(ptr, None) })
         }
     }
@@ -71,6 +76,7 @@ impl<T: RefCnt> HybridProtection<T> {
         // We already synchronized the start of the sequence by SeqCst in the new_helping vs swap on
         // the pointer. We just need to make sure to bring the pointee in (this can be newer than
         // what we got in the Debt)
+        verif_step!(FALLBACK_LOAD);
         let candidate = storage.load(Acquire);
 
         // Try to replace the debt with our candidate. If it works, we get the debt slot to use. If
@@ -78,12 +84,15 @@ impl<T: RefCnt> HybridProtection<T> {
         match node.confirm_helping(gen, candidate as usize) {
             Ok(debt) => {
                 // The fast path -> we got the debt confirmed alright.
+                verif_step!(FALLBACK_CONFIRMED);
                 Self::from_inner(unsafe { Self::new(candidate, Some(debt)).into_inner() })
             }
             Err((unused_debt, replacement)) => {
                 // The debt is on the candidate we provided and it is unused, we so we just pay it
                 // back right away.
+                verif_step!(FALLBACK_HELPED);
                 if !unused_debt.pay::<T>(candidate) {
+                    verif_step!(FALLBACK_UNUSED_PAID);
                     unsafe { T::dec(candidate) };
                 }
                 // We got a (possibly) different pointer out. But that one is already protected and
@@ -218,6 +227,7 @@ impl<T: RefCnt, Cfg: Config> CaS<T> for HybridStrategy<Cfg> {
             }
             // If they are still equal, put the new one in.
             let new_raw = T::as_ptr(&new);
+            verif_step!(CAS_XCHG);
             if storage
                 .compare_exchange_weak(current.as_raw(), new_raw, SeqCst, Relaxed)
                 .is_ok()
@@ -230,6 +240,7 @@ impl<T: RefCnt, Cfg: Config> CaS<T> for HybridStrategy<Cfg> {
                 T::dec(old.as_ptr());
                 return old;
             }
+            verif_step!(CAS_RETRY);
         }
     }
 }
